@@ -8,9 +8,15 @@ Within reach of per-function contracts and decided here:
   F2  edgeql/compiler/astutils.py extend_binop: the n-ary AND / OR chain has the semantics of the conjunction / disjunction of its operands.
   F3  pgsql/compiler/context.py CompilerContextLevel.__init__: in every context-switch mode the set of type rewrites whose CTE is being
       compiled (`pending_type_rewrite_ctes`) contains the enclosing level's set (whole-class AST obligation).
-NOT covered (no contract within reach decides it): that *every* read path -- link traversal, backlinks, shapes, intersections,
-computed pointers, globals -- registers a rewrite (setgen.new_set and its ~40 callers) and that the SQL compiler substitutes the
-rewrite CTE for every range variable over the type's table (relctx.range_for_material_objtype and callers).
+  F4-F6 see below (has_own_policies, try_type_rewrite in three views, the compiled-alias cache).
+  F7  pgsql/compiler/relctx.py range_for_material_objtype: a type with a registered rewrite gets a range variable over the relation compiled from that rewrite
+      (compiled now or taken from the CTE cache, whose keying is part of the invariant), unless the caller says ignore_rewrites / for_mutation or that very rewrite
+      is being compiled; + an inventory of the flags passed at every call site of the range-variable builders.
+  F8  edgeql/compiler/setgen.py new_set (the one constructor of IR sets): a set over an object type that does not say ignore_rewrites has its rewrite key registered
+      when new_set returns; the flag is set only on request or by should_ignore_rewrite.
+  F9  policies.should_ignore_rewrite: only while access policies are being compiled.
+NOT covered (no contract within reach decides it): that every IR set is built by new_set (~40 callers; irast.Set is also constructed directly in a few places), that the
+SQL compiler reaches range_for_material_objtype for every read of a type's table (relgen's dispatch), and the semantics of the compiled rewrite itself.
 """
 import ast, os
 from pyvc.engine import World
@@ -222,6 +228,111 @@ def build():
         ensures=['CU(result[1]) == SEC(ctx)', CINV],
         raises={'QueryError': {}, 'AssertionError': {}, 'KeyError': {}})
     w.contracts['%s:_declare_view_from_schema' % STM].hints['ext_funcs'] = XV
+
+    # F7  pgsql/compiler/relctx.py range_for_material_objtype -- the place where the SQL compiler puts the policy-filtered rewrite in place of a type's table.
+    #     History predicates (write-once, uninterpreted): RWOF(rel) = the IR set a relation (or the query of a CTE) was compiled from; OVER(rvar) = what a range
+    #     variable ranges over; INCL(rel) = the range variable included into a freshly made sub-relation.
+    #     Clause: unless the caller says ignore_rewrites / for_mutation or the rewrite of this very key is being compiled, a type with a registered rewrite gets a
+    #     range variable over (a wrapper of) the relation compiled from THAT rewrite -- whether it is compiled now or taken from the per-statement CTE cache
+    #     (invariant: an entry filed under (type id, include_descendants, dml sources) was compiled from the rewrite registered under (type id, include_descendants)).
+    REL = 'edb/pgsql/compiler/relctx.py'
+    w.refclass('RSet', {'path_id': 'Obj'})
+    w.refclass('TRf', {'real_material_type': 'TRf', 'name_hint': 'Obj', 'id': 'Obj', 'is_view': 'bool'})
+    w.refclass('PId', {}); w.ext_methods['PId.is_objtype_path'] = dict(params={}, returns='bool')
+    w.refdict('CTED', 'Map[Tuple[Obj,bool,Opt[Obj]],Obj]')
+    w.refclass('Als', {}); w.ext_methods['Als.get'] = dict(params={'hint': 'str'}, returns='str')
+    w.refclass('PEnv', {'type_rewrites': 'Map[Tuple[Obj,bool],Opt[RSet]]', 'is_explain': 'bool', 'aliases': 'Als', 'external_rvars': 'Map[Tuple[PId,Obj],Obj]'})
+    w.refclass('PCtx', {'env': 'PEnv', 'trigger_mode': 'bool', 'pending_type_rewrite_ctes': 'Set[Tuple[Obj,bool]]', 'type_rewrite_ctes': 'CTED', 'ordered_type_ctes': 'Seq[Obj]',
+                        'rel': 'Obj', 'pending_query': 'Obj', 'rel_overlays': 'Obj'})
+    w.ufunc('RWOF', ['Obj'], 'Opt[RSet]'); w.ufunc('OVER', ['Obj'], 'Obj'); w.ufunc('INCL', ['Obj'], 'Obj')
+    w.opaque_exprs['pgce.PathAspect.SOURCE'] = 'Obj'
+    w.trusted.append('relctx (assumed contracts of code outside reach): dispatch.visit(ir_set, ctx) compiles ir_set into ctx.rel and keeps the CTE-cache invariant; CommonTableExpr(query=q) '
+                     'stands for q; rvar_for_rel(rel) ranges over rel; include_rvar(rel, rvar) puts rvar into rel; newrel() / subrel() give a fresh level sharing env and the CTE cache, '
+                     'with its own copy of the pending set')
+    w.alias('DK', 'Opt[Obj]')
+    CINV7 = lambda c: ('forall(Obj, bool, DK, lambda ti, inc, dk: implies((ti, inc, dk) in %s.type_rewrite_ctes and (ti, inc) in %s.env.type_rewrites '
+                       'and not is_none(%s.env.type_rewrites[(ti, inc)]), RWOF(%s.type_rewrite_ctes[(ti, inc, dk)]) == %s.env.type_rewrites[(ti, inc)]))' % (c, c, c, c, c))
+    LEVEL = ['not old(allocated(result))', 'result.env == self.env', 'result.type_rewrite_ctes == self.type_rewrite_ctes', 'result.trigger_mode == self.trigger_mode',
+             'result.pending_type_rewrite_ctes == self.pending_type_rewrite_ctes', 'not old(allocated(result.rel))']
+    X7 = {'_needs_cte': dict(params={'t': 'TRf'}, returns='bool'),
+          'irast.Set': dict(params={'path_id': 'Obj', 'typeref': 'TRf', 'expr': 'Obj'}, returns='RSet', modifies=['$alloc'], ensures=['not old(allocated(result))']),
+          'irast.PathId.from_typeref': dict(params={'t': 'TRf', 'namespace': 'Set[str]'}, returns='Obj'),
+          'irast.TypeRoot': dict(params={'typeref': 'TRf'}, returns='Obj'),
+          'context.RelOverlays': dict(params={}, returns='Obj'),
+          'dispatch.visit': dict(params={'ir': 'RSet', 'ctx': 'PCtx'}, returns='none', requires=[CINV7('ctx')],
+                                 modifies=['CTED.m', 'PCtx.ordered_type_ctes', '$alloc'], ensures=[CINV7('ctx'), 'RWOF(ctx.rel) == ir']),
+          'pgast.CommonTableExpr': dict(params={'name': 'str', 'query': 'Obj', 'materialized': 'bool'}, returns='Obj', modifies=['$alloc'],
+                                        ensures=['not old(allocated(result))', 'RWOF(result) == RWOF(query)']),
+          'rvar_for_rel': dict(params={'rel': 'Obj', 'typeref': 'TRf', 'alias': 'str', 'lateral': 'bool', 'ctx': 'PCtx'}, optional=('alias', 'lateral'), returns='Obj', modifies=['$alloc'],
+                               ensures=['OVER(result) == rel']),
+          'pathctx.put_path_id_map': dict(params={'rel': 'Obj', 'a': 'Obj', 'b': 'Obj'}, returns='none'),
+          'include_rvar': dict(params={'rel': 'Obj', 'rvar': 'Obj', 'path_id': 'Obj', 'pull_namespace': 'bool', 'ctx': 'PCtx'}, returns='none', ensures=['INCL(rel) == rvar']),
+          '_get_typeref_descendants': dict(params={'t': 'TRf', 'include_descendants': 'bool', 'for_mutation': 'bool'}, returns='Seq[TRf]'),
+          'get_type_rel_overlays': dict(params={'t': 'TRf', 'dml_source': 'Seq[Obj]', 'ctx': 'PCtx'}, returns='Seq[Obj]')}
+    w.ext_methods['PCtx.newrel'] = dict(params={}, returns='PCtx', context_manager=True, modifies=['$alloc'], ensures=LEVEL)
+    w.ext_methods['PCtx.subrel'] = dict(params={}, returns='PCtx', context_manager=True, modifies=['$alloc'], ensures=LEVEL)
+    TT = '(typeref if is_global else typeref.real_material_type)'
+    MUST = ('(not ignore_rewrites or is_global) and not for_mutation and (%s.id, include_descendants) in ctx.env.type_rewrites and not is_none(ctx.env.type_rewrites[(%s.id, include_descendants)]) '
+            'and (%s.id, include_descendants) not in ctx.pending_type_rewrite_ctes' % (TT, TT, TT))
+    w.contract(REL, 'range_for_material_objtype',
+        params={'typeref': 'TRf', 'path_id': 'PId', 'for_mutation': 'bool', 'lateral': 'bool', 'include_overlays': 'bool', 'include_descendants': 'bool', 'ignore_rewrites': 'bool',
+                'is_global': 'bool', 'dml_source': 'Seq[Obj]', 'ctx': 'PCtx'}, returns='Obj',
+        ghost={'g_base': 'Obj'}, requires=[CINV7('ctx')],
+        modifies=['CTED.m', 'PCtx.ordered_type_ctes', 'PCtx.pending_type_rewrite_ctes', 'PCtx.pending_query', 'PCtx.rel_overlays', '$alloc'],
+        ensures=[CINV7('ctx'),
+                 'implies(%s, RWOF(OVER(INCL(OVER(g_base)))) == ctx.env.type_rewrites[(%s.id, include_descendants)])' % (MUST, TT)],
+        raises={'ValueError': {}, 'AssertionError': {}},
+        ghost_after={'overlays = get_type_rel_overlays(typeref, dml_source=dml_source, ctx=ctx)': [('g_base', 'rvar')]},
+        abstract={'dml_source_key = frozenset(dml_source) if ctx.trigger_mode and dml_source else None': dict(assigns={'dml_source_key': 'Opt[Obj]'}, modifies=[]),     # (the frozenset, kept opaque)
+                  "if ctx.env.is_explain or len(typeref_descendants) <= 1:": dict(assigns={'rvar': 'Obj'}, modifies=['$alloc']),
+                  'if overlays and include_overlays:': dict(assigns={'rvar': 'Obj'}, modifies=['$alloc'])},
+        hints={'ghost_out': ['g_base'], 'ext_funcs': X7})
+
+    # F8  setgen.new_set -- "absolutely all ir.Set instances must be created using this constructor": when it returns a set over an object type that does not say
+    #     ignore_rewrites (and query rewrites are on), the key (type, skip_subtypes) is registered in the environment's table of rewrites (by try_type_rewrite now, or earlier);
+    #     and the set says ignore_rewrites only if the caller asked for it or should_ignore_rewrite said so while access policies are being compiled.
+    #     `**kwargs` is modelled as a keyword bag with the one key the function looks at (other keywords are handed to the IR class untouched: not modelled).
+    SG = 'edb/edgeql/compiler/setgen.py'
+    w.refclass('ISet', {'ignore_rewrites': 'bool', 'typeref': 'Obj', 'expr': 'Obj'}); w.refclass('IrCls', {})
+    w.ufunc('SIR', ['TypeT', 'Ctx'], 'bool'); w.classes['Obj']['skip_subtypes'] = 'bool'
+    w.classes['Ctx']['suppress_rewrites'] = 'Set[TypeT]'; w.classes['Opts']['apply_query_rewrites'] = 'bool'; w.classes['Env']['set_types'] = 'Map[ISet,TypeT]'
+    w.trusted.append('setgen.new_set: the IR class called with (typeref, expr, **kwargs) builds a fresh set whose ignore_rewrites is the keyword of that name (default False); '
+                     'keywords other than ignore_rewrites are not modelled')
+    def _ircls_call(ex, recv, args, kwargs, node):
+        from pyvc.engine import V
+        from pyvc.vtypes import TBool
+        import z3
+        r = ex.alloc(w.ty('ISet'))
+        ig = kwargs.get('ignore_rewrites')
+        ex.heap_write(r, 'ignore_rewrites', ex.val(ig) if ig is not None else V(TBool, z3.BoolVal(False)))
+        ex.heap_write(r, 'typeref', ex.val(kwargs['typeref'])); ex.heap_write(r, 'expr', ex.val(kwargs['expr']))
+        return r
+    w.py_methods[('IrCls', '__call__')] = _ircls_call
+    X8 = {'policies.should_ignore_rewrite': dict(params={'stype': 'TypeT', 'ctx': 'Ctx'}, returns='bool', returns_expr='SIR(stype, ctx)'),
+          'typegen.type_to_typeref': dict(params={'stype': 'TypeT', 'env': 'Env'}, returns='Obj')}
+    SKIP = '(isinstance(expr, irast.TypeRoot) and expr.skip_subtypes)'
+    NS = dict(params={'stype': 'TypeT', 'expr': 'Obj', 'ctx': 'Ctx', 'ircls': 'IrCls'}, returns='ISet',
+        modifies=['Env.type_rewrites', 'RWD.m', 'Env.set_types', '$alloc', 'Ctx.anchors', 'Ctx.partial_path_prefix', 'Ctx.path_scope', 'Ctx.expr_exposed', 'StmtT.where',
+                  'ISet.ignore_rewrites', 'ISet.typeref', 'ISet.expr'],
+        ensures=['implies(not result.ignore_rewrites and isinstance(stype, s_objtypes.ObjectType) and ctx.env.options.apply_query_rewrites, (stype, %s) in ctx.env.type_rewrites)' % SKIP,
+                 'implies(result.ignore_rewrites, kwargs.get("ignore_rewrites", False) or (len(ctx.suppress_rewrites) > 0 and SIR(stype, ctx)))',
+                 'implies(kwargs.get("ignore_rewrites", False), result.ignore_rewrites)',
+                 'not old(allocated(result))', 'ctx.env.set_types[result] == stype'],
+        raises={'QueryError': {}})
+    HN = {'ext_funcs': X8, 'kwargs_bag': {'kwargs': {'ignore_rewrites': 'bool'}},
+          }
+    w.contract(SG, 'new_set', requires=['not ISCOMP(stype)'], hints=dict(HN), **NS)
+    w.contract(SG, 'new_set', view='compound', requires=['ISCOMP(stype)', COMPS_PLAIN], hints=dict(HN, callee_views={'try_type_rewrite': 'compound'}), **NS)
+
+    # F9  policies.should_ignore_rewrite: rewrites are only ever switched off while access policies are being compiled (ctx.suppress_rewrites non-empty), and then
+    #     only for the types listed there and for object types outside the standard library
+    w.classes['Obj']['module'] = 'Obj'; w.opaque_exprs['s_schema.STD_MODULES'] = 'Set[Obj]'
+    w.ufunc('UQN', ['Obj'], 'Obj')
+    w.contract(POL, 'should_ignore_rewrite', params={'stype': 'TypeT', 'ctx': 'Ctx'}, returns='bool',
+        ensures=['implies(result, len(ctx.suppress_rewrites) > 0)',
+                 'implies(len(ctx.suppress_rewrites) > 0 and stype in ctx.suppress_rewrites, result)',
+                 'implies(result and stype not in ctx.suppress_rewrites, isinstance(stype, s_objtypes.ObjectType))'],
+        hints={'ext_funcs': {'s_name.UnqualName': dict(params={'n': 'Obj'}, returns='Obj', returns_expr='UQN(n)')}})
     return w
 
 # ---------------------------------------------------------------------------------------------------------------------
@@ -287,4 +398,30 @@ def extra_obligations(w, tier, seed):
     early = [type(x).__name__ for l in loops_ for x in ast.walk(l) if isinstance(x, (ast.Break, ast.Return, ast.Continue))]
     out.append(ob('scan/try_type_rewrite/compound-visits-every-component', 'try_type_rewrite: the loop over the components of a union / intersection type has no break / continue / return',
                   len(loops_) == 1 and not early, 'policies.py:try_type_rewrite: loops over objs: %d, early exits: %s' % (len(loops_), early), undecided=(len(loops_) != 1)))
+    # (e) F7's clause is conditional on the flags the callers pass.  Inventory over edb/pgsql/compiler: `ignore_rewrites` is, at every call of a range-variable builder,
+    #     absent (= False), the caller's own parameter, or the IR set's own flag -- and literally True only in compile_trigger (a range driven by overlays only);
+    #     `for_mutation` is literally True only in gen_dml_cte (the DML target itself, guarded by the write policies), otherwise absent or handed on.
+    pkg = os.path.join(repo.REPO, 'edb/pgsql/compiler')
+    bad = []; seen_calls = 0
+    BUILDERS = ('range_for_material_objtype', 'range_for_typeref', 'new_primitive_rvar', 'new_root_rvar')
+    for fn_ in sorted(os.listdir(pkg)):
+        if not fn_.endswith('.py'): continue
+        tree = ast.parse(open(os.path.join(pkg, fn_), encoding='utf-8').read())
+        funcs = [n for n in ast.walk(tree) if isinstance(n, (ast.FunctionDef, ast.AsyncFunctionDef))]
+        for n in ast.walk(tree):
+            if isinstance(n, ast.Call) and ast.unparse(n.func).split('.')[-1] in BUILDERS:
+                seen_calls += 1
+                own = [f for f in funcs if f.lineno <= n.lineno <= (f.end_lineno or f.lineno)]
+                owner = max(own, key=lambda f: f.lineno).name if own else None
+                if any(k.arg is None for k in n.keywords): bad.append('%s:%d (%s): **kwargs' % (fn_, n.lineno, owner))
+                kw = {k.arg: ast.unparse(k.value) for k in n.keywords if k.arg}
+                ig = kw.get('ignore_rewrites'); fm = kw.get('for_mutation')
+                if not (ig is None or ig in ('ignore_rewrites', 'ir_set.ignore_rewrites') or (ig == 'True' and (fn_, owner) == ('dml.py', 'compile_trigger'))):
+                    bad.append('%s:%d (%s): ignore_rewrites=%s' % (fn_, n.lineno, owner, ig))
+                if not (fm is None or fm == 'for_mutation' or (fm == 'True' and (fn_, owner) == ('dml.py', 'gen_dml_cte'))):
+                    bad.append('%s:%d (%s): for_mutation=%s' % (fn_, n.lineno, owner, fm))
+                if len(n.args) > 2: bad.append('%s:%d (%s): flags passed positionally' % (fn_, n.lineno, owner))
+    out.append(ob('scan/range-builders/rewrite-flags', 'edb/pgsql/compiler: every call of range_for_material_objtype / range_for_typeref / new_primitive_rvar / new_root_rvar passes ignore_rewrites '
+                  'as absent, its own parameter or the IR set flag (True only in dml.compile_trigger) and for_mutation as absent or its own parameter (True only in dml.gen_dml_cte)',
+                  seen_calls >= 5 and not bad, '; '.join(bad[:5]) or '%d call sites' % seen_calls, undecided=(seen_calls < 5)))
     return out
